@@ -32,6 +32,8 @@ def lines_for(d):
         return [f"guard neg {fl(d['value'])}"]
     if cls == "time":
         tau = np.asarray(d["value"], dtype=float)
+        if d["kind"] in ("E", "P", "X", "D"):  # a decay time: only the sign is checked
+            return [f"guard neg {fl(tau)}"]
         k = utils.get_wavenumber(tau, 5.0) if d["kind"] == "G" else tau
         return [f"guard neg {fl(tau)}", f"guard zeroshift {fl(k)}"]
     if cls in ("zero_shift", "shift_ncomp"):
